@@ -283,7 +283,8 @@ class Machine:
 
     def violate(self, oracle, flag, band, msg, batched=False):
         self.violations.append({"signature": {"engine": "hist_rescale", "oracle": oracle, "rescale_before": str(flag), "band": band,
-                                              "batch": "batched" if batched else "single", "tips": "states" if self.recipe.get("tip_states") else "partials"},
+                                              "batch": "batched" if batched else "single", "tips": "states" if self.recipe.get("tip_states") else "partials",
+                                              "zero_rate_category": str(bool(self.recipe.get("invariant"))), "data": self.recipe.get("style", "?")},
                                 "message": msg})
 
 
